@@ -387,6 +387,7 @@ Definition lzx_init (window_bits reset_int : N) (delta_ : bool) (refdata : list 
      pre_tab := Emp; main_tab := Emp; len_tab := Emp; ali_tab := Emp; len_empty := false;
      e8 := Emp; osel := OWin; optr := 0; oend := 0; err := 0 |}.
 
+Definition set_err (s : lst) (e : N) : lst := s <| err := e |>.
 (* a sequence of lzxd_decompress calls on one stream; errors are sticky; returns the statuses *)
 Fixpoint calls (reqs : list N) (s : lst) (acc : list N) : sprog (list N) :=
   match reqs with
